@@ -186,3 +186,7 @@ add('C16', 'benign', 'brax/envs/ant.py', '    rng, rng1, rng2 = jax.random.split
     rng, rng1, rng2 = keys[0], keys[1], keys[2]''', 'split result indexed instead of unpacked')
 add('C13', 'benign', J, '((cpos != 0).any() or (cquat != np.array([1.0, 0.0, 0.0, 0.0])).any())', '(not (np.allclose(cpos, 0) and np.allclose(cquat, [1.0, 0.0, 0.0, 0.0])))', 'guard spelled with allclose and De Morgan')
 add('C13', 'benign', J, '((cpos != 0).any() or (cquat != np.array([1.0, 0.0, 0.0, 0.0])).any())', '(np.any(cpos != 0) or np.any(cquat != np.array([1.0, 0.0, 0.0, 0.0])))', 'guard spelled with np.any')
+add('C03', 'benign', 'brax/spring/collisions.py', '    impulse_d = math.safe_norm(vel_d) / (i_mass[0] + i_mass[1] + ang_d)', '''    w_d = ang_d + i_mass[1] + i_mass[0]
+    impulse_d = math.safe_norm(vel_d) / w_d''', 'listed denominator rewritten (commuted, temp introduced)')
+add('C03', 'break', 'brax/spring/collisions.py', '    impulse_d = math.safe_norm(vel_d) / (i_mass[0] + i_mass[1] + ang_d)', '''    impulse_d = math.safe_norm(vel_d) / (i_mass[0] + i_mass[1] + ang_d)
+    impulse_d = impulse_d / math.safe_norm(c.frame[1])''', 'a further unguarded state-dependent division in a function with listed exceptions')
